@@ -12,6 +12,9 @@ package deadline
 //@ // ---- what a relay's answer says (uninterpreted functions of the bid object; go-builder-client spec/versionedsignedbuilderbid.go) ----
 //@ spec func bidValueOf(b *builderspec.VersionedSignedBuilderBid) int
 //@ spec func bidFeeOf(b *builderspec.VersionedSignedBuilderBid) bellatrix.ExecutionAddress
+//@ spec func bidValueErr(b *builderspec.VersionedSignedBuilderBid) error
+//@ // the bid a relay answered this attempt with
+//@ spec func attemptBid() *builderspec.VersionedSignedBuilderBid
 //@ spec func bidTsOf(b *builderspec.VersionedSignedBuilderBid) uint64
 //@ spec func bidBuilderOf(b *builderspec.VersionedSignedBuilderBid) phase0.BLSPubKey
 //@ spec func bidHeaderRootOf(b *builderspec.VersionedSignedBuilderBid) phase0.Root
@@ -21,6 +24,8 @@ package deadline
 //@
 //@ extern (*github.com/attestantio/go-builder-client/spec.VersionedSignedBuilderBid).Value
 //@   ensures result1 == nil ==> v != nil && result0 != nil && u256(result0) == bidValueOf(v) && bidValueOf(v) >= 0
+//@   // (whether a bid has a readable value does not change between two readings)
+//@   ensures result1 == bidValueErr(v)
 //@ extern (*github.com/attestantio/go-builder-client/spec.VersionedSignedBuilderBid).FeeRecipient
 //@   ensures result1 == nil ==> v != nil && result0 == bidFeeOf(v)
 //@ extern (*github.com/attestantio/go-builder-client/spec.VersionedSignedBuilderBid).Timestamp
@@ -39,6 +44,7 @@ package deadline
 //@ func (*Service).getBidValue
 //@   requires bid != nil
 //@   ensures result1 == nil ==> result0 != nil && u256(result0) == bidValueOf(bid) && bidValueOf(bid) != 0
+//@   ensures result1 == nil ==> bidValueErr(bid) == nil
 //@   modifies nothing
 //@
 //@ func (*Service).verifyBidSignature
@@ -61,14 +67,27 @@ package deadline
 //@   modifies nothing
 //@
 //@ // ---- one attempt of a relay's goroutine: at most one message, and a message carrying a bid only for an eligible bid ----
+//@ // bidBetter(a, b): b is worth more than a. TRUSTED (not verified): its body subtracts in 256-bit arithmetic and reads
+//@ // the sign of the two's complement difference, which is this comparison for values below 2^255 wei; the engine
+//@ // does not model uint256 subtraction
+//@ func bidBetter
+//@   trusted
+//@   ensures result == (bidValueErr(bid1) == nil && bidValueErr(bid2) == nil && bidValueOf(bid2) > bidValueOf(bid1))
+//@   modifies nothing
+//@
 //@ func (*Service).builderBidAttempt
 //@   requires provider != nil && relayConfig != nil && log != nil && !closed(respCh) && !closed(errCh) && unheld(s.relayPubkeysMu)
 //@   requires firstBid != nil ==> bidValueOf(firstBid) != 0
 //@   ensures result0 != nil ==> bidValueOf(result0) != 0
-//@   assumes call BuilderBid#1 (r, err): err == nil ==> r != nil
+//@   assumes call BuilderBid#1 (r, err): err == nil ==> r != nil && r.Data == attemptBid()
 //@   chaninv respCh (m): m != nil && m.provider != nil && m.score != nil && (m.bid != nil ==> big(m.score) == bidValueOf(m.bid) && eligible(m.bid, slot, relayConfig))
 //@   chaninv errCh (m): m != nil && m.provider != nil
 //@   ensures sends() <= 1
+//@   // an eligible bid (the only way the count of bids grows) is handed to the collector exactly when it is the
+//@   // relay's first or beats the relay's best so far, and then becomes the relay's best; otherwise the best stays
+//@   ensures result2 == old(bids) + 1 && old(lastBid) == nil ==> result1 == attemptBid() && sends() == 1
+//@   ensures result2 == old(bids) + 1 && old(lastBid) != nil && bidValueErr(old(lastBid)) == nil && bidValueOf(attemptBid()) > bidValueOf(old(lastBid)) ==> result1 == attemptBid() && sends() == 1
+//@   ensures result2 == old(bids) + 1 && old(lastBid) != nil && bidValueErr(old(lastBid)) == nil && bidValueOf(attemptBid()) <= bidValueOf(old(lastBid)) ==> result1 == old(lastBid) && sends() == 0
 //@
 //@ // a relay's goroutine: attempts until the deadline; every message it sends is one of an attempt
 //@ func (*Service).builderBid
